@@ -167,6 +167,10 @@ func New(t *tape.Tape, o Options) *Workspace {
 		dir := m.Dirs[t.Draw("ws.fdir", len(m.Dirs))]
 		// a tape-chosen leading letter decouples the sort order of file names from the import order
 		f := &File{Module: mi, Path: fmt.Sprintf("%s/%c%d.proto", dir, 'a'+rune(t.Draw("ws.letter", 6)), j)}
+		if !o.LintClean && t.Draw("ws.oddname", 10) == 9 {
+			// names some tools treat specially: AppleDouble prefix, leading dot, upper case, a space
+			f.Path = fmt.Sprintf("%s/%s%d.proto", dir, tape.Pick(t, "ws.oddnamekind", []string{"._a", ".h", "Upper", "sp ace"}), j)
+		}
 		f.Package = strings.ReplaceAll(dir, "/", ".")
 		f.Message = f.Package + fmt.Sprintf(".M%d", j)
 		if !o.LintClean && t.Draw("ws.nopackage", 8) == 7 {
